@@ -53,7 +53,7 @@ def gen_c05(rng, n, maxlen):
             out.append((op, (op, G.gen_big(rng, maxlen))))
         else:
             v = rng.choice([0, 1, -1, (1 << 31), -(1 << 31), (1 << 32), (1 << 32) - 1, -(1 << 32), (1 << 63) - 1,
-                            -(1 << 63), rng.randint(-(1 << 63), (1 << 63) - 1), rng.randint(-(1 << 33), 1 << 33)])
+                            -(1 << 63), rng.randint(-(1 << 63), (1 << 63) - 1), rng.randint(-(1 << 33), 1 << 33)] + G.MACHINE_EDGES)
             out.append(("new", ("new", ("I", v))))
     return out
 
@@ -76,8 +76,8 @@ def gen_c06(rng, n, maxlen):
             out.append(("neq-comm", ("neq", ("nadd", a, b), ("nadd", b, a))))
             out.append(("neq", ("neq", a, b)))
         else:
-            u = rng.choice([0, 1, -1, 6, -6, rng.randint(-50, 50), rng.randint(-(1 << 40), 1 << 40)])
-            d = rng.choice([0, 1, 2, 3, 4, 6, rng.randint(1, 50), rng.randint(1, 1 << 40)])
+            u = rng.choice([0, 1, -1, 6, -6, rng.randint(-50, 50), rng.randint(-(1 << 40), 1 << 40), rng.choice(G.MACHINE_EDGES)])
+            d = rng.choice([0, 1, 2, 3, 4, 6, rng.randint(1, 50), rng.randint(1, 1 << 40), min(abs(rng.choice(G.MACHINE_EDGES)), (1 << 63) - 1)])   # Num::new casts `down as isize`: below 2^63 only
             out.append(("nnew", ("nnew", ("I", u), ("I", d))))
     return out
 
@@ -87,6 +87,18 @@ def gen_c07(rng, n, maxlen):
     for _ in range(n):
         a, b = G.gen_rat_pair(rng, maxlen)
         op = rng.choice(["ncmp", "ncmp", "ncmp", "neq"])
+        if rng.random() < 0.08:
+            # a value built from machine integers against the same value (or a neighbour) written as a literal
+            u, d = rng.choice(G.MACHINE_EDGES), min(abs(rng.choice(G.MACHINE_EDGES[::3] + [1, 1, 1])) or 1, (1 << 63) - 1)
+            a = ("nnew", ("I", u), ("I", d))
+            b = ("N", G.lit(u + rng.choice([0, 0, 1, -1])), G.lit(d))
+            if rng.random() < 0.5:
+                # Num::from_num (what the interpreter compares a popped value with: the command's count)
+                a = ("fromnum", ("I", u))
+                b = rng.choice([("N", G.lit(u + rng.choice([0, 0, 1, -1])), G.lit(1)), ("nnew", ("I", u), ("I", 1)),
+                                ("N", G.lit(2 * u + rng.choice([0, 1])), G.lit(2))])
+            if rng.random() < 0.5:
+                a, b = b, a
         out.append((op, (op, a, b)))
     return out
 
